@@ -555,7 +555,11 @@ impl<'de> de::Deserializer<'de> for Value {
             Value::Integer(n) => visitor.visit_i64(n),
             Value::Float(n) => visitor.visit_f64(n),
             Value::String(v) => visitor.visit_string(v),
-            Value::Datetime(v) => visitor.visit_string(v.to_string()),
+            Value::Datetime(v) => {
+                let mut map = Table::new();
+                map.insert(datetime::FIELD.to_owned(), Value::String(v.to_string()));
+                visitor.visit_map(&mut MapDeserializer::new(map))
+            }
             Value::Array(v) => {
                 let len = v.len();
                 let mut deserializer = SeqDeserializer::new(v);
@@ -1032,15 +1036,18 @@ impl ser::Serializer for ValueSerializer {
                 map: Table::new(),
                 next_key: None,
             },
+            datetime: false,
         })
     }
 
     fn serialize_struct(
         self,
-        _name: &'static str,
+        name: &'static str,
         len: usize,
     ) -> Result<Self::SerializeStruct, crate::ser::Error> {
-        self.serialize_map(Some(len))
+        let mut ser = self.serialize_map(Some(len))?;
+        ser.datetime = name == datetime::NAME;
+        Ok(ser)
     }
 
     fn serialize_struct_variant(
@@ -1362,6 +1369,7 @@ impl ser::SerializeStruct for SerializeMap {
 
 struct ValueSerializeMap {
     ser: SerializeMap,
+    datetime: bool,
 }
 
 impl ser::SerializeMap for ValueSerializeMap {
@@ -1400,6 +1408,11 @@ impl ser::SerializeStruct for ValueSerializeMap {
     }
 
     fn end(self) -> Result<Value, crate::ser::Error> {
+        if self.datetime {
+            if let Some(Value::String(s)) = self.ser.map.get(datetime::FIELD) {
+                return s.parse().map(Value::Datetime).map_err(ser::Error::custom);
+            }
+        }
         ser::SerializeMap::end(self)
     }
 }
@@ -1479,6 +1492,7 @@ impl ValueSerializeVariant<ValueSerializeMap> {
                     map: Table::with_capacity(len),
                     next_key: None,
                 },
+                datetime: false,
             },
         }
     }
